@@ -428,7 +428,8 @@ static void reset_state(void)
 {
     /* after a failed case: forget leftovers (blocks are abandoned), empty the table through the public primitive */
     int guard = 0;
-    while (REC->cnt && guard++ < 100000) memrec_rem_var(REC, "reset", "reset", 0, REC->ptrs[REC->cnt - 1].ptr);
+    while (REC->cnt && guard++ < 2000) memrec_rem_var(REC, "reset", "reset", 0, REC->ptrs[REC->cnt - 1].ptr);
+    if (REC->cnt) REC->cnt = 0;       /* a broken rem primitive must not make later cases depend on this one */
     nsh = 0; nstale = 0; memset(pool, 0, sizeof pool);
     n_moved = n_same = 0;
 }
@@ -617,6 +618,7 @@ int main(int argc, char **argv)
         for (int k = 0; k < FNAME_LENS[i]; k++) fname_buf[i][k] = (char) (k < 4 ? "dir/"[k] : 'a' + (k * 7 + i) % 26);
         fname_buf[i][FNAME_LENS[i]] = 0;
     }
+    spifmem_init();                       /* as a client does once at start-up */
     REC = spifmem_verif_malloc_rec();
     /* warm-up: everything the harness itself allocates lazily is allocated before any heap baseline is taken */
     vh_cov(1); vh_count("warmup", 0);
